@@ -115,6 +115,8 @@ def assigned_targets(stmts):
 
 
 class Frame:
+    collect = None
+
     def __init__(self, mod, cls, fn, env):
         self.mod = mod
         self.cls = cls
@@ -154,7 +156,15 @@ class Interp:
         return self.run_body(mod, cls, fn, env)
 
     def run_body(self, mod, cls, fn, env):
-        self.frames.append(Frame(mod, cls, fn, env))
+        fr = Frame(mod, cls, fn, env)
+        is_gen = any(isinstance(n, (ast.Yield, ast.YieldFrom)) for n in ast.walk(fn)) and not any(
+            (isinstance(d, ast.Attribute) and d.attr == 'contextmanager') or
+            (isinstance(d, ast.Name) and d.id == 'contextmanager') for d in fn.decorator_list)
+        if is_gen and fn is not self.top_fn:
+            # generator function: evaluated eagerly, yields collected into a list (its body must
+            # not depend on the consumer)
+            fr.collect = []
+        self.frames.append(fr)
         self.depth += 1
         if self.depth > 12:
             raise Unsupported('call depth')
@@ -162,7 +172,11 @@ class Interp:
             try:
                 self.exec_block(fn.body, env)
             except _Return as r:
+                if getattr(fr, 'collect', None) is not None:
+                    return fr.collect
                 return r.value
+            if getattr(fr, 'collect', None) is not None:
+                return fr.collect
             return None
         finally:
             self.frames.pop()
@@ -294,6 +308,10 @@ class Interp:
         t = s.target
         cur = self.eval(t, env)
         rhs = self.eval(s.value, env)
+        if isinstance(cur, SCompact) and isinstance(t, ast.Subscript):
+            idxv = self.eval(t.slice, env)
+            if isinstance(idxv, SWhere):
+                rhs = self.where_rhs(idxv, rhs)
         if isinstance(cur, SArr):
             # in place on the array object
             self.arr_inplace(cur, op, rhs)
@@ -337,6 +355,25 @@ class Interp:
             cur.extend(list(rhs))
             return
         self.assign(t, self.binop(op, cur, rhs), env)
+
+    def where_rhs(self, w, rhs):
+        """a[np.where(m)[0]] (op)= rhs: numpy broadcasts rhs against count(m) elements.  A scalar
+        always fits; a full-length array only fits when every element is selected (else numpy
+        raises ValueError: shape mismatch) or when it has exactly one element."""
+        if not isinstance(rhs, SArr):
+            return rhs
+        if rhs.ndim != 1:
+            raise Unsupported('n-d rhs for index-set assignment')
+        if isinstance(rhs.n, int) and rhs.n == 1:
+            return rhs.get(0)
+        npm.shape_eq(self.ctx, w.mask.shape, rhs.shape, 'index-set operand length')
+        allsel = npm.np_any(self.ctx, w.mask, all_=True)
+        if self.ctx.branch(allsel):
+            g = self.frozen_getter(rhs)
+            return SCompact(w.mask, g, rhs.dtype)
+        if self.ctx.branch(scalar_cmp('==', rhs.n, 1)):
+            return rhs.get(0)
+        raise PyRaise('ValueError')
 
     def is_copy_index(self, base, idx):
         if isinstance(idx, (SArr, list)):
@@ -710,6 +747,9 @@ class Interp:
 
     # -- generators (contextmanager) ----------------------------------------------------------
     def do_yield(self, node, env):
+        if getattr(self.frame, 'collect', None) is not None:
+            self.frame.collect.append(self.eval(node.value, env) if node.value is not None else None)
+            return
         body = self.contract.assumed.get('yield') if self.contract else None
         if body is None:
             raise Unsupported('yield without assumed body contract')
@@ -1413,6 +1453,8 @@ class Interp:
                 return a.view((a.shape[1],), lambda j: (r, j),
                               lambda i, j: (scalar_cmp('==', i, r), (j,)))
             raise Unsupported('int index into %d-d array' % a.ndim)
+        if isinstance(idx, SWhere):
+            idx = idx.mask
         if isinstance(idx, SArr):
             if idx.dtype == 'bool':
                 if a.ndim != 1 or idx.ndim != 1:
@@ -1502,8 +1544,15 @@ class Interp:
                 npm.arr_write(ctx, a, lambda i: scalar_cmp('==', i, j), lambda i: v)
                 return
             target = self.arr_getitem(a, idx)
+        elif isinstance(idx, SWhere) and a.ndim == 1:
+            return self.arr_setitem(a, idx.mask, self.where_rhs(idx, v))
         elif isinstance(idx, SArr) and idx.dtype == 'bool' and a.ndim == 1:
             npm.shape_eq(ctx, a.shape, idx.shape, 'mask shape')
+            if isinstance(v, SCompact) and v.mask is idx:
+                mget = self.frozen_getter(idx)
+                vv = v.val
+                npm.arr_write(ctx, a, lambda i: mget(i), lambda i: vv(i))
+                return
             if isinstance(v, SArr):
                 raise Unsupported('mask store of array value')
             mget = self.frozen_getter(idx)
